@@ -488,6 +488,7 @@ func c14R7(p *engine.Prog, r *engine.Report, la *engine.LockAnalysis) {
 	r.Floor("C14-R7", 6, "lazy getters of StateDB / IdentityStateDB")
 	c14R8(p, r)
 	c14R9(p, r)
+	c14R10(p, r)
 	_ = n
 }
 
@@ -644,7 +645,20 @@ func c14R9(p *engine.Prog, r *engine.Report) {
 	}
 	tests := func(f *ssa.Function) []string {
 		var out []string
-		for _, i := range engine.Ifs(f) {
+		// the function and the TxPool helpers it calls directly (a test extracted into a helper counts)
+		fns := []*ssa.Function{f}
+		for _, c := range engine.Calls(f) {
+			if h := c.Common().StaticCallee(); h != nil && h.Blocks != nil && h != f && h.Signature.Recv() != nil {
+				if rn := engine.NamedOf(h.Signature.Recv().Type()); rn != nil && rn.Obj().Name() == "TxPool" {
+					fns = append(fns, h)
+				}
+			}
+		}
+		var ifs []*ssa.If
+		for _, g := range fns {
+			ifs = append(ifs, engine.Ifs(g)...)
+		}
+		for _, i := range ifs {
 			cond, neg := stripNot(i.Cond)
 			bo, ok := cond.(*ssa.BinOp)
 			if !ok {
@@ -670,4 +684,59 @@ func c14R9(p *engine.Prog, r *engine.Report) {
 	a, b := tests(put), tests(mv)
 	r.Check(len(a) >= 3 && strings.Join(a, " ; ") == strings.Join(b, " ; "), "C14-R9", "put vs movePendingTxsToExecutable|the first queued transaction is executable under the same epoch / nonce tests", p.Pos(mv.Pos()), strings.Join(a, " ; "), "submission decides by {"+strings.Join(a, " ; ")+"}, promotion by {"+strings.Join(b, " ; ")+"}: a transaction can be promoted although it does not continue the committed nonce (or stay pending although it does) — the executable list gets a hole, or a valid transaction is never offered")
 	r.Floor("C14-R9", 1, "sibling tests")
+}
+
+// c14R10: (a) every place that asks for the block gas cap asks with the same configuration switch
+// (types.MaxBlockSize(cfg.Consensus.X)): the builder's cap is the validator's cap in every consensus
+// version; (b) no loop drains a channel under a bound that it re-reads from the shrinking channel
+// (StopSync re-submits EVERY transaction parked during sync).
+func c14R10(p *engine.Prog, r *engine.Report) {
+	args := map[string][]string{}
+	for _, f := range p.AllFuncs() {
+		if pk := engine.FuncPkg(f); pk == nil || !engine.IsRepoPkg(pk) || f.Synthetic != "" || f.Blocks == nil || isTestish(p.Pos(f.Pos())) {
+			continue
+		}
+		for _, c := range engine.Calls(f) {
+			if !engine.CallIs(c, "blockchain/types.MaxBlockSize") {
+				continue
+			}
+			a := engine.CallArgs(c)
+			// the configuration switch(es) the argument is computed from (`cfg != nil && cfg.Consensus.X` included)
+			var sw []string
+			for v := range engine.BackSlice(a[0], engine.DefaultSlice) {
+				if _, fn2, okF := engine.FieldOf(v); okF && strings.HasPrefix(fn2, "Enable") {
+					sw = append(sw, fn2)
+				}
+			}
+			sort.Strings(sw)
+			fld := strings.Join(dedup(sw), "+")
+			if fld == "" {
+				fld = "?" + renderVal(a[0], 0)
+			}
+			args[fld] = append(args[fld], engine.RelName(f)+" at "+p.InstrPos(c))
+		}
+	}
+	var ks []string
+	total := 0
+	for k, v := range args {
+		ks = append(ks, k)
+		total += len(v)
+	}
+	sort.Strings(ks)
+	detail := ""
+	for _, k := range ks {
+		detail += k + ": " + strings.Join(args[k], ", ") + "; "
+	}
+	r.Check(len(ks) == 1 && total >= 4, "C14-R10", "MaxBlockSize|every caller selects the block gas cap by the same consensus switch", "", itoa(int64(total))+" call sites use "+strings.Join(ks, ","), "the block gas cap is selected by different switches: "+detail+"— in the consensus version where they differ the builder fills blocks up to another cap than the validator enforces")
+	n := 0
+	for _, f := range funcsOfPkg(p, "core/mempool") {
+		if f.Blocks == nil || isTestish(p.Pos(f.Pos())) {
+			continue
+		}
+		n++
+		for _, bad := range drainBoundedByShrinkingLen(f) {
+			r.Bad("C14-R10", uniq(r, engine.RelName(f)+"|channel drained under a bound re-read from the shrinking channel"), p.InstrPos(bad), "the loop condition compares a growing index with len(channel) while the body receives from that channel: it stops after about half of the elements — the rest stay parked (accepted transactions are neither in the pool nor offered)")
+		}
+	}
+	r.OK("C14-R10", "core/mempool|no drain loop bounded by the shrinking channel length", "", itoa(int64(n))+" functions scanned")
 }
